@@ -71,7 +71,7 @@ def run(cx):
 
         def half(t, idx):
             s = strip_identity(t)
-            return s[0] == "field" and s[2] == str(idx) and any(x[0] == "variant" and x[2] == "Continue" for x in walk(s)) and \
+            return s[0] == "field" and s[2] == str(idx) and any(x[0] == "variant" and x[2] in ("Continue", "Ok") for x in walk(s)) and \
                 [x[3] for x in walk(s) if x[0] == "call" and name_matches(x[1], f"{CONN}::open_bi")] == [ob_[0].bb]
         ob.require(half(arg_origin(fw[0], 0, o), 0), "do_rpc/write-half", f"FramedWrite wraps {show(arg_origin(fw[0], 0, o))[:100]}", co.path, co.loc(fw[0].bb))
         ob.require(half(arg_origin(fr[0], 0, o), 1), "do_rpc/read-half", f"FramedRead wraps {show(arg_origin(fr[0], 0, o))[:100]}", co.path, co.loc(fr[0].bb))
